@@ -48,6 +48,11 @@ def run(ctx) -> None:
             case = {"ops": ops, "clock": clock, "topology": "separate", "backend": "s3cas", "lock": "grant_all"}
             for dev, res in c01.explore(ctx, case, 2 if quick else 3, 45 if quick else 500):
                 runs.append((case, dev, res))
+            # the same, with the store answering a lost conditional PUT by 409 ConditionalRequestConflict (a conflicting
+            # write landed while the request was in flight) instead of 412: both mean "not written"
+            case9 = dict(case, s3_conflict="409")
+            for dev, res in c01.explore(ctx, case9, 2 if quick else 3, 25 if quick else 300):
+                runs.append((case9, dev, res))
     # the real conditional-write lease lock: a clock actor jumps 61 s (lease 60 s), so that a paused holder's lock lapses
     # and is taken over; directed schedules put the jump + the other committer's whole commit at every point of A0's commit
     for ops in c01.OPSETS[:2] if quick else c01.OPSETS[:4]:
@@ -66,7 +71,8 @@ def run(ctx) -> None:
     import random as _r
     for i in range(10 if quick else 300):
         ops = c01.OPSETS3[i % len(c01.OPSETS3)]
-        case = {"ops": ops, "clock": ctx.rng.choice(["tick", "coarse", "frozen"]), "topology": "separate", "backend": "s3cas", "lock": "grant_all"}
+        case = {"ops": ops, "clock": ctx.rng.choice(["tick", "coarse", "frozen"]), "topology": "separate", "backend": "s3cas", "lock": "grant_all",
+                "s3_conflict": ctx.rng.choice(["412", "409", "alt"])}
         seed = ctx.rng.randrange(1 << 30)
         res = P.run_case(ctx.scratch, c01._fix_case(case), lambda sc, seed=seed: S.random_chooser(_r.Random(seed), 0.4), tag="c08r")
         runs.append((case, [("random", seed)], res))
